@@ -8,7 +8,8 @@ The modelled design (built for real in vf/props/c03.py):
                  sq[0] (toggles, sync)  sq[1] (toggles, other): a second split signal]       then has logic in two domains
   leaf module : sp[1] (bit 1 of sp, toggles, domain other -- sync in single-domain designs)
                 memory 2 x 1 bit, write port (sync): mem[cnt[0]] <= d, en = 1
-                                  sync read port (sync): rdata <= mem[rl], en = 1, not transparent
+                                  sync read port (sync): rdata <= mem[rl], en = 1, not transparent      (ports "n"/"nt")
+                                  sync read port (sync): tdata <= mem[d],  en = 1, transparent_for=(write port,)  ("t"/"nt")
                 obs = Cat(ClockSignal("sync"), ResetSignal("sync", allow_reset_less=True))   (combinational)
   top         : defines the clock domains; core = wrap_top(Core(leaf = wrap_sub(Leaf)))
 
@@ -26,7 +27,8 @@ Semantics implemented here (the statement, literally):
   * obs shows the clock level and the reset level (0 for a reset-less domain) of the domain the leaf's "sync"
     finally is, whatever the inserted controls are (inserters never affect combinational logic);
   * memory: write happens at the active edge of the port's domain iff all enables are asserted (resets do not clear
-    rows), read port data is loaded at the active edge iff all enables are asserted, and sees the row before the write.
+    rows), read port data is loaded at the active edge iff all enables are asserted, and sees the row before the write;
+    a transparent read port sees that row patched by the write the ports of its transparency set make at the same edge.
 """
 
 KINDS = [(e, r) for e in ("pos", "neg") for r in ("sync", "async", "none")]
@@ -77,8 +79,13 @@ class Model:
         if cfg.get("logic_b"):
             elems += [Elem("cntb", 2, False, "other", "core"), Elem("rlb", 1, True, "other", "core"),
                       Elem("sq0", 1, False, "sync", "core"), Elem("sq1", 1, False, "other", "core")]
-        self.rp = Elem("rdata", 1, False, "sync", "leaf", kind="rdata")
-        elems.append(self.rp)
+        self.ports = cfg.get("ports", "n")
+        self.rports = []
+        if "n" in self.ports:
+            self.rports.append(Elem("rdata", 1, False, "sync", "leaf", kind="rdata"))
+        if "t" in self.ports:
+            self.rports.append(Elem("tdata", 1, False, "sync", "leaf", kind="rdata"))
+        elems += self.rports
         self.wp = Elem("wport", 0, True, "sync", "leaf", kind="wport")
         off = 0
         for e in elems:
@@ -181,7 +188,7 @@ class Model:
         flags = []
         new = dict(v)
         rows2 = list(rows)
-        rdata_alt = None
+        alts = {}                 # read-port data registers whose behaviour under a reset is left open: name -> init
         why = {}
         if kind == "r":
             dom = self.arst_doms[arg]
@@ -193,7 +200,7 @@ class Model:
                     if e.dom != dom:
                         continue
                     if e.kind == "rdata":
-                        rdata_alt = e.init          # unspecified: hold or init
+                        alts[e.name] = e.init       # unspecified: hold or init
                         why[e.name] = "async-reset-rise"
                     elif e.reset_less:
                         flags.append("async_rise_leaves_reset_less")
@@ -246,13 +253,22 @@ class Model:
                         flags.append("renamed_logic_clocked_by_target")
                     if e.kind == "rdata":
                         en = all(iv[c] for c in e.ens)
+                        transparent = e.name == "tdata"
+                        addr = iv["d"] if transparent else v["rl"]
+                        val = rows[addr]
+                        if transparent and self.wp.dom == dom and all(iv[c] for c in self.wp.ens) and (v["cnt"] & 1) == addr:
+                            val = iv["d"]             # the same-edge write of the port it is transparent for
+                            if en:
+                                flags.append("transparent_read_sees_same_edge_write")
                         if en:
-                            new["rdata"] = rows[v["rl"]]
-                            flags.append("mem_read")
+                            new[e.name] = val
+                            flags.append("transparent_read" if transparent else "mem_read")
                         else:
-                            flags.append("mem_read_gated_by_enable")
+                            flags.append("transparent_read_gated_by_enable" if transparent else "mem_read_gated_by_enable")
+                            if val != v[e.name]:
+                                flags.append("gated_transparent_read_would_change" if transparent else "gated_read_would_change")
                         if what in ("domain-reset", "inserted-reset"):
-                            rdata_alt = e.init      # unspecified: normal behaviour or init
+                            alts[e.name] = e.init     # unspecified: normal behaviour or init
                     elif what in ("domain-reset", "inserted-reset"):
                         new[e.name] = e.init
                     elif what == "update":
@@ -271,10 +287,11 @@ class Model:
         for e in self.elems:
             packed |= new[e.name] << e.off
         rows2 = tuple(rows2)
-        allowed = {(packed, rows2, lv2)}
-        if rdata_alt is not None:
-            o = self.rp.off
-            allowed.add(((packed & ~(1 << o)) | (rdata_alt << o), rows2, lv2))
+        cands = [packed]
+        for e in self.rports:
+            if e.name in alts:
+                cands += [(p & ~(1 << e.off)) | (alts[e.name] << e.off) for p in cands]
+        allowed = {(p, rows2, lv2) for p in cands}
         self._why = why
         return allowed, tuple(flags), lv2
 
